@@ -4,7 +4,7 @@ import os
 
 from lib import tlc as tlcmod
 
-STYLES = ["events-true", "events-true+listeners", "events-list", "events-listener", "events-listener+listeners"]
+STYLES = ["events-true", "events-true+listeners", "events-list", "events-listener", "events-listener+listeners", "events-signal10", "events-own-types"]
 
 
 def scenarios(thorough):
